@@ -33,13 +33,7 @@ theorem generated_pins :
     Generated.utf8ArmStatus =
       [(Wrapper.parse.cName, Status.error.name), (Wrapper.uses.cName, Status.error.name),
        (Wrapper.usesList.cName, Status.error.name)] ∧
-    Generated.silentBoolWrappers =
-      ["wirefilter_add_type_field_to_scheme", "wirefilter_add_always_list_to_scheme",
-       "wirefilter_add_never_list_to_scheme", "wirefilter_add_int_value_to_execution_context",
-       "wirefilter_add_bytes_value_to_execution_context",
-       "wirefilter_add_ipv6_value_to_execution_context",
-       "wirefilter_add_ipv4_value_to_execution_context",
-       "wirefilter_add_bool_value_to_execution_context"] := by
+    Generated.silentBoolWrappers = [] := by
   decide
 
 /-! ## the error string -/
@@ -145,17 +139,10 @@ theorem status_mapping_err (w : Wrapper) (m : Msg) (h : w.fallible = true)
     wrap w (.ok (.ok (.error m))) = some (w.fail .error, .set m) := by
   simp [wrap, Wrapper.admits, h, hs]
 
-/-- **Finding (model mirrors the code).** The eight setters that end in `.is_ok()`
-(`wirefilter_add_type_field_to_scheme`, `…_add_{always,never}_list_to_scheme`,
-`…_add_{int,bytes,ipv4,ipv6,bool}_value_to_execution_context`) return `false` on an engine
-error and leave `LAST_ERROR` as it was — NULL if nothing failed before, or a stale message of
-an earlier, unrelated failure. The property text asks for a last-error message with every
-failure; the `capi` stream reports the concrete call as an implementation failure. -/
-theorem silent_setters_leave_last_error (w : Wrapper) (m : Msg) (h : w.silentOnErr = true) :
-    wrap w (.ok (.ok (.error m))) = some (.bool false, .untouched) := by
-  cases w <;> simp [Wrapper.silentOnErr] at h <;>
-    simp [wrap, Wrapper.admits, Wrapper.fallible, Wrapper.silentOnErr, Wrapper.fail,
-      Wrapper.returnsBool]
+/-- No wrapper drops an engine error silently: every fallible call that fails writes the
+error's text to last-error (the `.is_ok()` setters were repaired in /repo). -/
+theorem no_silent_setters (w : Wrapper) : w.silentOnErr = false := by
+  cases w <;> rfl
 
 /-- **Panic ⇒ Panic status for parse, compile and match** (and `uses_list`), never a success
 and never unwinding (the outcome is a value), last-error := the catcher's text. For
